@@ -1,5 +1,7 @@
 """Symbolic state: frames, objects with concrete addresses, typed cells, zero ranges, initialisation tracking."""
 from vals import *
+from llir import INT
+INT8 = INT(8)
 
 class Obj:
     __slots__ = ('size', 'cells', 'zero', 'freed', 'name', 'pre', 'allow', 'shared')
@@ -94,6 +96,8 @@ class Memory:
                 c = o.cells.get(pos)
                 if c is None:
                     if any(a <= pos < b for a, b in o.zero): parts.append(iv(8, 0)); pos += 1; continue
+                    if not s.overlapping(o, pos, 1):      # uninitialised padding byte copied along with initialised ones
+                        parts.append(s.ex.fresh_val(st, INT8, 'padbyte', hidden=True) if s.ex.mode != 'conc' else iv(8, 0)); pos += 1; continue
                     break
                 if c[1][0] != 'i' or pos + c[0] > off + n: break
                 parts.append(c[1]); pos += c[0]
